@@ -68,7 +68,7 @@ def _const_values(ty):
 
     ty = types.without_const(ty)
     if ty.is_int() or type(ty) is pdt.Int:
-        return [2, -1]
+        return [2, -1, 0]
     if ty.is_float() or type(ty) is pdt.Float:
         return [2.5]
     if ty == pdt.String():
